@@ -5,6 +5,7 @@ import os
 import re
 import shutil
 import subprocess
+import threading
 import sys
 import tempfile
 import time
@@ -107,13 +108,17 @@ class TlcResult:
                 and not self.temporal_violated and not self.error and not self.deadlock)
 
 
+_TLC_LOCK = threading.Lock()
+
+
 def run_tlc(ctx, module, cfg, files=None, extra=None, workers="auto", timeout=600,
             consts_tla=None, heap=None, deadlock=False, depth_first=False):
     """Run TLC on spec/<module>.tla with spec/<cfg> in a private scratch copy.
     files: extra files (abs paths) to copy next to the spec (e.g. trace ndjson).
     consts_tla: dict name->text of generated TLA modules to write."""
-    ctx.n_tlc += 1
-    wd = ctx.sub("tlc%d" % ctx.n_tlc)
+    with _TLC_LOCK:          # (several runs may be started from parallel threads)
+        ctx.n_tlc += 1
+        wd = ctx.sub("tlc%d" % ctx.n_tlc)
     for f in os.listdir(SPEC):
         if f.endswith(".tla") or f.endswith(".cfg"):
             shutil.copy(os.path.join(SPEC, f), wd)
